@@ -500,6 +500,9 @@ func replay[C any](t *testing.T, rec *Recorder, s Spec[C]) {
 	for _, vi := range v.Violations {
 		fmt.Printf("VERIF-REPLAY-VIOLATION sig=%s detail=%s\n", vi.Sig, vi.Detail)
 	}
+	if v.Inconclusive != "" {
+		fmt.Printf("VERIF-REPLAY-INCONCLUSIVE %s\n", v.Inconclusive)
+	}
 	if len(v.Violations) == 0 {
 		fmt.Printf("VERIF-REPLAY-OK\n")
 	} else {
